@@ -358,6 +358,18 @@ func c15cases(c *h.Ctx) []fileCase {
 		sb.WriteString(es[lrnd.Intn(len(es))])
 		text[fmt.Sprintf("breaks/seeded-%d", k)] = sb.String()
 	}
+	// mapping keys that are not strings, at every depth (a file with imports is converted key by key before it is merged)
+	text["non-string-keys-nested"] = "tasks:\n  t1:\n    command: [\"true\"]\n    env: {~: a, 1.5: b, 2: c, true: d, 2001-01-01: e, .inf: f, 0x10: g}\n    variables: {~: a, 1.5: b, -0.0: c}\n"
+	text["non-string-keys-top"] = "~: x\n1.5: y\n7: z\ntrue: w\ntasks: {t1: {command: [\"true\"]}}\n"
+	text["non-string-keys-contexts"] = "contexts:\n  ~: {executable: {bin: /bin/sh, args: [\"-c\"]}}\n  1.5: {env: {1.5: x, ~: y}}\ntasks: {t1: {command: [\"true\"]}}\npipelines:\n  1.5: [{task: t1}]\n  ~: [{task: t1}]\n"
+	// every hand-written shape once more behind an import list: a file that imports goes through the raw-map merge
+	// (key conversion, section-wise merging) before it is decoded, a file without imports does not
+	for k, v := range text {
+		if strings.HasPrefix(k, "breaks/") || strings.HasPrefix(k, "import-") || strings.HasPrefix(v, "import:") || strings.Contains(v, "\nimport:") {
+			continue
+		}
+		text["behind-import/"+k] = "import: [\"inc/extra.yaml\"]\n" + v
+	}
 	for k, v := range text {
 		cases = append(cases, fileCase{name: "text:" + k, ext: ".yaml", content: v})
 	}
